@@ -6,12 +6,23 @@
 (* code takes them in ascending order - one of the explored behaviours),   *)
 (* so that "the result does not depend on the order" is an invariant over  *)
 (* all interleavings.                                                      *)
+(* The label vector is an OBJECT of the caller that outlives the call      *)
+(* (destripe / decompress_destripe_cbin hand one vector and one header to  *)
+(* every batch of a file): up to MaxCalls calls are made with it, each on  *)
+(* a fresh recording.  `lab` is the object, `lab0` what the caller wrote   *)
+(* into it (history variable), `entry` the copy a call works from          *)
+(* (bad_channels is computed once, at the entry).  The property layer      *)
+(* speaks about lab0.  LabelWrites = "marks" is a what-if: the loop notes   *)
+(* in the caller's vector that channel i is repaired - invisible in the    *)
+(* first call, the second call repairs nothing.                            *)
 (***************************************************************************)
 EXTENDS BadChannels, Json, IOUtils, SequencesExt
 
 CONSTANTS NSites,      \* sites per geometry in the model
           GeomSel,     \* names of the geometries explored
-          ExportSites  \* sites per geometry of the exported replay cases
+          ExportSites, \* sites per geometry of the exported replay cases
+          MaxCalls,    \* calls made with the same label vector object
+          LabelWrites  \* "none" = the code ; "marks" = what-if, see above
 
 \* 8-site geometries <<x, y>> (micrometres), channel order as on the probe
 Geoms == [
@@ -25,32 +36,43 @@ Geoms == [
 GeomNames == GeomSel
 Geo(name) == SubSeq(Geoms[name], 1, NSites)
 
-VARIABLES gname, lab, val, todo
-vars == <<gname, lab, val, todo>>
+VARIABLES gname, lab, lab0, entry, val, todo, ncall
+vars == <<gname, lab, lab0, entry, val, todo, ncall>>
 g == Geo(gname)
+Fresh == [i \in 1..NSites |-> Row(i)]
 
 Init == /\ gname \in GeomNames
-        /\ lab \in [1..NSites -> 0..3]
-        /\ val = [i \in 1..NSites |-> Row(i)]
-        /\ todo = Bad(lab)                              \* bad_channels = where(labels == 1 | labels == 2)
+        /\ lab0 \in [1..NSites -> 0..3]
+        /\ lab = lab0 /\ entry = lab0
+        /\ val = Fresh
+        /\ todo = Bad(lab0)                             \* bad_channels = where(labels == 1 | labels == 2)
+        /\ ncall = 1
 
 Repair(i) == /\ i \in todo
-             /\ val' = [val EXCEPT ![i] = RepairStep(g, lab, val, i)]
+             /\ val' = [val EXCEPT ![i] = RepairStep(g, entry, val, i)]
              /\ todo' = todo \ {i}
-             /\ UNCHANGED <<gname, lab>>
-Next == \E i \in todo : Repair(i)
+             /\ lab' = IF LabelWrites = "marks" THEN [lab EXCEPT ![i] = 0] ELSE lab
+             /\ UNCHANGED <<gname, lab0, entry, ncall>>
+\* the next batch: same label vector object, fresh data
+Again == /\ todo = {} /\ ncall < MaxCalls
+         /\ ncall' = ncall + 1
+         /\ entry' = lab /\ todo' = Bad(lab) /\ val' = Fresh
+         /\ UNCHANGED <<gname, lab, lab0>>
+Next == (\E i \in todo : Repair(i)) \/ Again
 Spec == Init /\ [][Next]_vars
 
 -----------------------------------------------------------------------------
-(* property layer on the model's observables *)
-Untouched == UntouchedP(lab, {i \in 1..NSites : val[i] = Row(i)})
-Repaired == \A i \in Bad(lab) \ todo : RepairedP(g, lab, i, Observe(g, lab, i, val[i]))
+(* property layer on the model's observables, in every call, against the labels the caller wrote (lab0) *)
+Untouched == UntouchedP(lab0, {i \in 1..NSites : val[i] = Row(i)})
+Repaired == \A i \in Bad(lab0) \ todo : RepairedP(g, lab0, i, Observe(g, lab0, i, val[i]))
 \* order independence: a repaired row is what the step yields on the ORIGINAL rows, whatever was repaired before it
-OrderIndependent == \A i \in Bad(lab) \ todo : val[i] = RepairStep(g, lab, [j \in 1..NSites |-> Row(j)], i)
+OrderIndependent == \A i \in Bad(lab0) \ todo : val[i] = RepairStep(g, lab0, Fresh, i)
 \* later bad channels never read earlier repaired ones
-NoSecondHand == \A i \in Bad(lab) \ todo : val[i].src \cap Bad(lab) = {}
-ZeroCase == \A i \in Bad(lab) \ todo : (val[i].zero <=> Support(g, lab, i) = {})
+NoSecondHand == \A i \in Bad(lab0) \ todo : val[i].src \cap Bad(lab0) = {}
+ZeroCase == \A i \in Bad(lab0) \ todo : (val[i].zero <=> Support(g, lab0, i) = {})
 NotYet == \A i \in todo : val[i] = Row(i)
+\* the call leaves the caller's label vector as it was
+LabelsKept == lab = lab0 /\ entry = lab0
 
 -----------------------------------------------------------------------------
 (* spec -> code: every label vector on the first ExportSites sites of every geometry with what the
